@@ -66,13 +66,13 @@ end
 def hasBrackets (x : Expr) : Bool := bracketCount x != 0
 
 mutual
-/-- `assert not any(is_in_brackets(c) for c in expr.nodes())` in the `ConcatenatedAxis` case of `_to_el_expr` fails: a
-    concatenation with a bracket below it.  The case is not reached below a bracket (`_to_el_expr(Brackets)` copies the inner
-    expression without entering it), so `inBr` is always `false` where it is read. -/
+/-- The check "Brackets ([]) cannot be used in or around a concatenation (+)" of `_parse_op` (a `SemanticError` since the
+    fix of the internal assert in `_to_el_expr`): some `ConcatenatedAxis` node has a node of its subtree in brackets, i.e. a
+    bracket above it (`inBr`) or below it. -/
 def concatTouchesBrackets (inBr : Bool) : Expr → Bool
   | .axis .. => false
   | .flat i _ _ | .ellipsis i _ _ _ => concatTouchesBrackets inBr i
-  | .brackets _ _ _ => false
+  | .brackets i _ _ => concatTouchesBrackets true i
   | .concat cs _ _ => inBr || bracketCountL cs != 0
   | .list cs _ _ | .args cs _ _ | .op cs _ _ => concatTouchesBracketsL inBr cs
 def concatTouchesBracketsL (inBr : Bool) : List Expr → Bool
@@ -278,6 +278,7 @@ deriving Repr, DecidableEq, Inhabited
 inductive PErr where
   | syntax (e : Err)                              -- `stage1.parse_op(description)` failed
   | concatNotAllowed                              -- l.95
+  | concatBrackets                                -- "Brackets ([]) cannot be used in or around a concatenation (+)"
   | noArrow                                       -- l.108 / l.204 / l.210
   | inputCount (expected found : Nat)             -- l.121
   | outputCount (expected found : Nat)            -- l.126
@@ -391,8 +392,7 @@ def validParents (ins : List Expr) : List Expr :=
 
 /-- `_to_output` (l.182–200) -/
 def toOutput (x : Expr) : PRes Expr :=
-  if bracketCount x == 0 then .error (.internal .assertBracketNum)
-  else if bracketCount x == 1 then .ok (replaceBr x)
+  if bracketCount x == 1 then .ok (replaceBr x)
   else .error .notOneBracket
 
 def toOutputL : List Expr → PRes (List Expr)
@@ -465,7 +465,7 @@ def markInputs (ins outs : List Expr) : PRes (List Expr) :=
 def outputHasDup (out : Expr) : Bool := (splitNames false out).any hasDup
 
 def finish (fl : Flags) (el : ElOp) (ins outs : List Expr) : PRes (List Expr × List Expr) :=
-  if el.outs.length != outs.length then .error (.internal .assertElCount)
+  if el.outs.length != outs.length then .error (.outputCount el.outs.length outs.length)
   else
     match bracketCheck false 0 el.ins (ins.map toEl) with
     | some err => .error err
@@ -488,7 +488,7 @@ def parseOpTree (mode : ElMode) (fam : Family) (fl : Flags) (kd : Bool) (ins : L
     PRes (List Expr × List Expr) :=
   let all := ins ++ outs.getD []
   if !fl.allowConcat && all.any hasConcat then .error .concatNotAllowed
-  else if all.any (concatTouchesBrackets false) then .error (.internal .assertConcatBrackets)
+  else if all.any (concatTouchesBrackets false) then .error .concatBrackets
   else
     let eins := ins.map toEl
     let eouts := outs.map (fun o => o.map toEl)
